@@ -22,7 +22,8 @@ ASSUMPTIONS = ["the regular-language-inclusion reading of the property is a stat
                "language; runtime monitoring decides it only on the sampled members (stated gap, DESIGN §4/C13)",
                "every sampled member is validated by the real compiled regex before use"]
 FLOORS = {"quick": {"extractors_total": 6000, "extractors_sampled": 6000, "members_checked": 50000, "branch_cover_members": 50000,
-                    "doc_lossless_checks": 150, "stream_equal_full": 150, "stream_equal_sublist": 600,
+                    "doc_lossless_checks": 150, "stream_equal_full": 150, "stream_equal_sublist": 600, "long_documents": 500, "sublist_composition:0": 8, "sublist_composition:1": 8,
+                    "sublist_composition:2": 8, "sublist_composition:3": 8,
                     "case_insensitive_members": 150, "fold_substituted_members": 40},
           "thorough": {"extractors_sampled": 6000, "members_checked": 300000, "doc_lossless_checks": 3000,
                        "stream_equal_full": 3000, "stream_equal_sublist": 20000}}
@@ -143,11 +144,32 @@ def run_shard(spec, rec):
         text = gen.dense_doc(rng, rec=None, maxfrag=5)
         lossless_doc(ac, EXTRACTORS, text, rec, index)
         compare_streams(EXTRACTORS, text, rec, "stream_equal_full", dict(text=text, extractors="all"))
+    long_documents(spec, rec, ac, EXTRACTORS)
     # custom sub-lists
     specials = EXTRACTORS[-5:]
-    for _ in range(spec["nsub"] // 6):
-        sub_idx = sorted(rng.sample(range(len(EXTRACTORS) - 5), rng.randint(5, 120)))
-        sub = [EXTRACTORS[i] for i in sub_idx] + [x for x in specials if rng.random() < 0.7]
+    body = range(len(EXTRACTORS) - 5)
+    nostr = [i for i in body if not EXTRACTORS[i].strings]
+    ci = [i for i in body if EXTRACTORS[i].strings and EXTRACTORS[i].flags & re.I]
+    cs = [i for i in body if EXTRACTORS[i].strings and not EXTRACTORS[i].flags & re.I]
+    for round_no in range(spec["nsub"] // 6):
+        # compositions in which one of the two search automata (or both) has nothing to search for come
+        # round regularly; the rest are random mixtures
+        comp = round_no % 8
+        if comp == 0:
+            sub_idx = []                                                     # id/supra/stop words only
+        elif comp == 1:
+            sub_idx = sorted(rng.sample(nostr, min(len(nostr), rng.randint(1, 10))))   # + patterns without filter string
+        elif comp == 2:
+            sub_idx = sorted(rng.sample(ci, min(len(ci), rng.randint(1, 20))))          # case-insensitive strings only
+        elif comp == 3:
+            sub_idx = sorted(rng.sample(cs, rng.randint(1, 20)))                        # case-sensitive strings only
+        else:
+            sub_idx = sorted(rng.sample(body, rng.randint(5, 120)))
+        rec.count(f"sublist_composition:{min(comp, 4)}")
+        keep_specials = [x for x in specials if rng.random() < 0.7] if comp not in (0, 1) else list(specials)
+        if comp == 3 and rng.random() < 0.5:
+            keep_specials = []
+        sub = [EXTRACTORS[i] for i in sub_idx] + keep_specials
         if rng.random() < 0.3:
             rng.shuffle(sub)           # a custom list need not follow the default order
         actok = AhocorasickTokenizer(extractors=list(sub))
@@ -177,6 +199,58 @@ def run_shard(spec, rec):
                               observed=dict(n_foreign=sum(1 for x in got if id(x) not in {id(y) for y in sub})))
 
 
+def long_text(seed, limit, rep, b, j):
+    r = random.Random(f"{seed}-{limit}-{rep}-{b}-{j}")
+    snippet = f"100 {rep} 200"
+    start = limit - j - b
+    head = gen.filler(r, start + 50)[:start - 1] + " "
+    return head + snippet + " " + gen.filler(r, r.randint(50, 3000))
+
+
+def long_documents(spec, rec, ac, EXTRACTORS):
+    """Long texts (up to ~131,000 characters) with one citation to a multi-word reporter planted so that
+    the blank inside the reporter name sits just before a round offset (powers of two from 1,024, and
+    10,000 / 100,000): whatever a search does in blocks, the planted citation's own extractors must still
+    be selected. The reporter occurs nowhere else in the text."""
+    rng = random.Random(spec["seed"] + 4242)
+    reps = ["S. Ct.", "F. Supp. 2d", "L. Ed. 2d", "Cal. App. 4th", "Ill. App. 3d"] + \
+        [x for x in rng.sample(gen.DB.std, 40) if " " in x][:6]
+    limits = [2 ** k for k in range(10, 18)] + [10000, 100000]
+    n = 0
+    for limit in limits:
+        for rep in reps:
+            n += 1
+            if n % spec["nshards"] != spec["i"]:
+                continue
+            snippet = f"100 {rep} 200"
+            own = [e for e in EXTRACTORS if (not e.strings or any(x in snippet for x in e.strings))
+                   and e.compiled_regex.search(" " + snippet + " ")]
+            if not own:
+                continue
+            blanks = [i for i, ch in enumerate(snippet) if ch == " "][1:-1]     # blanks inside the reporter name
+            for b in blanks[:2]:
+                for j in (1, 2, 3, 4, 5):
+                    start = limit - j - b          # the inner blank then sits at offset limit - j
+                    if start < 10:
+                        continue
+                    text = long_text(spec["seed"], limit, rep, b, j)
+                    assert text[start:start + len(snippet)] == snippet
+                    try:
+                        got = {id(x) for x in ac.get_extractors(text)}
+                    except Exception as e:
+                        rec.violation("C13.get_extractors_raised." + type(e).__name__, dict(long_document=dict(limit=limit, reporter=rep, j=j)),
+                                      observed=str(e)[:200])
+                        continue
+                    rec.ev()
+                    rec.count("long_documents")
+                    for e in own:
+                        if id(e) not in got:
+                            rec.violation("C13.own_extractor_filtered_out_in_long_text",
+                                          dict(long_document=dict(limit=limit, reporter=rep, j=j, inner_blank=b, length=len(text), seed=spec["seed"])),
+                                          observed=dict(regex=e.regex[:160], strings=list(e.strings)[:4]))
+                            break
+
+
 def lossless_doc(ac, extractors, text, rec, index):
     got = ac.get_extractors(text)
     ids = {id(x) for x in got}
@@ -198,6 +272,17 @@ def replay(w, rec):
     from eyecite.tokenizers import EXTRACTORS, default_tokenizer
     c = w["case"]
     index = {id(e): i for i, e in enumerate(EXTRACTORS)}
+    if "long_document" in c:
+        d = c["long_document"]
+        text = long_text(d["seed"], d["limit"], d["reporter"], d["inner_blank"], d["j"])
+        snippet = f"100 {d['reporter']} 200"
+        got = {id(x) for x in default_tokenizer.get_extractors(text)}
+        for e in EXTRACTORS:
+            if (not e.strings or any(x in snippet for x in e.strings)) and e.compiled_regex.search(" " + snippet + " ") \
+                    and id(e) not in got:
+                rec.violation("C13.own_extractor_filtered_out_in_long_text", c, observed=dict(regex=e.regex[:160]))
+                break
+        return
     if c.get("extractors") == "all" or "extractor" in c:
         lossless_doc(default_tokenizer, EXTRACTORS, c["text"], rec, index)
         compare_streams(EXTRACTORS, c["text"], rec, "replay", c)
